@@ -11,7 +11,7 @@ from ..world import BASE_CLOCK as W_BASE
 
 ID = "C12"
 LEVEL = "fault_enumeration"
-RUNS = {"quick": 40, "thorough": 600}
+RUNS = {"quick": 50, "thorough": 600}
 RUN_ALARM = 900
 RULE = ("a valid multi-stream trace from the simulated machine (all models in rotation, jumbo events, payloads of every size) is the written "
         "state; the storage layer then applies ONE fault from the statement's list, every instance of it: truncation at each byte offset that "
